@@ -234,3 +234,92 @@ Lemma find_value_spec s k :
                   srun (SVal k [] false) s = (let (ts, e) := srun SItemStart rest in ((rev k, v) :: ts, e))
   end.
 Proof. intros Hn Hb. exact (find_value_loop_spec s QNone [] k Hn Hb). Qed.
+
+(* ---- tokenize_rule --------------------------------------------------------------------------- *)
+(* What the C tokenizer hands to the parse loop, in terms of the specification reader's output
+   (ts = the items read before the end or the first error, e = how the reading ended):
+   - once [fuel] (MAX_RULE_TOKENS) items are complete the rest of the text is ignored;
+   - an item that begins with '=' ends the reading as if the text ended there. *)
+Definition as_implemented (fuel : nat) (sp : list token * sending) : option (list token) :=
+  let (ts, e) := sp in
+  if Nat.leb fuel (length ts) then Some (firstn fuel ts)
+  else match e with SEndOk | SEmptyKey => Some ts | _ => None end.
+
+Lemma token_prefix_some l rest : token_prefix (map Some l ++ rest) = l ++ token_prefix rest.
+Proof. induction l as [|t l IH]; simpl; [reflexivity|]. now rewrite IH. Qed.
+
+Lemma token_prefix_nones n : token_prefix (repeat None n) = [].
+Proof. destruct n; reflexivity. Qed.
+
+Lemma find_key_eq r : find_key (61 :: r) = KEmpty (61 :: r).
+Proof. reflexivity. Qed.
+
+Lemma spin : forall f r acc, tokenize_loop f (61 :: r) acc = Some (rev acc ++ repeat None f).
+Proof.
+  induction f as [|f IH]; intros r acc.
+  - simpl. now rewrite app_nil_r.
+  - cbn [tokenize_loop]. rewrite find_key_eq. rewrite IH. simpl. now rewrite <- app_assoc.
+Qed.
+
+Lemma tokenize_loop_spec : forall fuel s tacc,
+  no_nul s -> bs_sensitive SItemStart s = false ->
+  option_map token_prefix (tokenize_loop fuel s (map Some tacc)) =
+  option_map (app (rev tacc)) (as_implemented fuel (srun SItemStart s)).
+Proof.
+  induction fuel as [|f IH]; intros s tacc Hn Hb.
+  - simpl. destruct (srun SItemStart s) as [ts e]. simpl.
+    rewrite <- map_rev. rewrite <- (app_nil_r (map Some (rev tacc))), token_prefix_some. simpl. reflexivity.
+  - destruct s as [|c0 s0].
+    + simpl. rewrite <- map_rev. rewrite <- (app_nil_r (map Some (rev tacc))), token_prefix_some. simpl. reflexivity.
+    + set (s := c0 :: s0) in *.
+      assert (Hloop : tokenize_loop (S f) s (map Some tacc) =
+                      match find_key s with
+                      | KErr => None
+                      | KEmpty rest => tokenize_loop f rest (None :: map Some tacc)
+                      | KOk k rest => match find_value rest with
+                                      | VErr => None
+                                      | VOk v rest' => tokenize_loop f rest' (Some (k, v) :: map Some tacc)
+                                      end
+                      end) by reflexivity.
+      rewrite Hloop; clear Hloop.
+      pose proof (find_key_spec s Hn) as Hk.
+      destruct (find_key s) as [|rest|k rest].
+      * rewrite Hk. reflexivity.
+      * destruct Hk as [[-> Hk]|[r [-> Hk]]]; rewrite Hk.
+        -- assert (tokenize_loop f [] (None :: map Some tacc) = Some (rev (None :: map Some tacc))) as -> by (destruct f; reflexivity).
+           simpl. rewrite <- map_rev, token_prefix_some. simpl. reflexivity.
+        -- rewrite spin. simpl. rewrite <- map_rev, <- app_assoc, token_prefix_some. simpl. reflexivity.
+      * destruct Hk as [Hne [Hnr [Hk Hbk]]]. rewrite Hk. rewrite Hbk in Hb.
+        pose proof (find_value_spec rest (rev k) Hnr Hb) as Hv.
+        destruct (find_value rest) as [|v rest'].
+        -- rewrite Hv. reflexivity.
+        -- destruct Hv as [Hn' [Hb' Hv]]. rewrite Hv. rewrite rev_involutive.
+           change (Some (k, v) :: map Some tacc) with (map Some ((k, v) :: tacc)).
+           etransitivity; [exact (IH rest' ((k, v) :: tacc) Hn' Hb')|].
+           destruct (srun SItemStart rest') as [ts e]. unfold as_implemented.
+           change (Nat.leb (S f) (length ((k, v) :: ts))) with (Nat.leb f (length ts)).
+           destruct (Nat.leb f (length ts)); simpl.
+           ++ now rewrite <- app_assoc.
+           ++ destruct e; simpl; try reflexivity; now rewrite <- app_assoc.
+Qed.
+
+(* The exact characterisation. *)
+Theorem tokenize_exact s :
+  no_nul s -> bs_sensitive SItemStart s = false ->
+  option_map token_prefix (tokenize s) = as_implemented MAX_RULE_TOKENS (spec_tokens s).
+Proof.
+  intros Hn Hb. unfold tokenize, spec_tokens.
+  rewrite (tokenize_loop_spec MAX_RULE_TOKENS s [] Hn Hb).
+  destruct (as_implemented MAX_RULE_TOKENS (srun SItemStart s)); reflexivity.
+Qed.
+
+(* Agreement with the specification outside the two F5 classes. *)
+Theorem tokenize_agrees s ts e :
+  no_nul s -> bs_sensitive SItemStart s = false ->
+  spec_tokens s = (ts, e) -> e <> SEmptyKey -> (length ts < MAX_RULE_TOKENS)%nat ->
+  option_map token_prefix (tokenize s) = match e with SEndOk => Some ts | _ => None end.
+Proof.
+  intros Hn Hb Hs He Hl. rewrite (tokenize_exact s Hn Hb), Hs. unfold as_implemented.
+  destruct (Nat.leb MAX_RULE_TOKENS (length ts)) eqn:E; [apply Nat.leb_le in E; lia|].
+  destruct e; try reflexivity. congruence.
+Qed.
